@@ -416,6 +416,23 @@ def _inject(job, ctx):
                         badk("destination-damaged", "and the destination no longer holds a loadable document")
                     continue
                 judge_failure(ctx, badk, dest, before, raised, log)
+                # the retry: the same object saved again without the fault is an ordinary successful save
+                raised2, _log2, _n2, captured2 = attempt_save(cfg, dest, fmt)
+                ctx.transitions += 1
+                if raised2 is not None:
+                    badk("retry-raises", "the save after the failed one raised %r" % (raised2,))
+                    continue
+                written = file_id(dest)
+                if written is None or written[0] != captured2:
+                    badk("retry-written-differs-from-serialised", "after the retry the destination holds %d bytes, the formatter returned %d" % (len(written[0]) if written else -1, len(captured2 or b"")))
+                fresh = cc.Config(schema, key_filename=os.path.join(tmp, "c19.key"))
+                try:
+                    fresh.load(dest, fmt)
+                    a, b = _norm(cc.asdict(cfg)), _norm(cc.asdict(fresh))
+                    if V.plain(a) != V.plain(b):
+                        badk("retry-load-back-differs", "the file written by the retry loads back as %s, saved from %s" % (V.show(b, 200), V.show(a, 200)))
+                except Exception as exc:  # noqa
+                    badk("retry-load-back-raises", "loading the file written by the retry raised %r" % (exc,))
     ctx.traces += 1
     ctx.sample({"state": state, "format": fmt, "steps": names[:40] if 'names' in dir() else []})
 
